@@ -60,7 +60,7 @@ def merge_cases(draw, max_chroms=3, max_bins=5):
     return {"part": "merge", "bt": bt, "symmetric": symmetric, "inputs": inputs, "cols": cols,
             "agg_count": agg_count, "mergebuf": draw(st.sampled_from([1, 2, 3, 7, 50, 10**6])),
             "order": list(draw(st.permutations(leaves))), "tree": tree,
-            "count_dtypes": count_dtypes,
+            "count_dtypes": count_dtypes, "via": draw(st.sampled_from(["api", "api", "cli"])),
             "support": support}
 
 
@@ -99,8 +99,20 @@ def check_merge(case, ctx: Ctx):
         if "count" in cols and case["agg_count"] != "sum":
             # 'count' = number of inputs holding the pixel; 'range' = a user callable (max - min): neither is idempotent
             kw["agg"] = {"count": (lambda s_: s_.max() - s_.min()) if case["agg_count"] == "range" else case["agg_count"]}
-        call("merge_coolers", cooler.merge_coolers, out, [uris[t] for t in case["order"]], case["mergebuf"],
-             h5opts={"compression": None}, **kw)
+        via = case.get("via", "api") if case["agg_count"] != "range" else "api"
+        if via == "cli":
+            from ..cliutil import run_cli
+
+            args = ["merge", out, *[uris[t] for t in case["order"]], "-c", case["mergebuf"]]
+            if case["cols"] is not None or case["agg_count"] != "sum":
+                for c in cols:
+                    a = aggs[c]
+                    args += ["--field", c + (f":agg={a}" if a != "sum" else "")]
+            rc, _, exc = run_cli(args)
+            check(rc == 0 and exc is None, f"cooler merge ... {args[-4:]} failed: exit {rc} {exc!r}")
+        else:
+            call("merge_coolers", cooler.merge_coolers, out, [uris[t] for t in case["order"]], case["mergebuf"],
+                 h5opts={"compression": None}, **kw)
         colidx = {"count": 0, "x": 1}
         proj = [[[r[0], r[1], *[r[2 + colidx[c]] for c in cols]] for r in rows] for rows in case["inputs"]]
         want = model.merge_rows(proj, tuple(aggs[c] for c in cols))
@@ -143,7 +155,7 @@ def check_merge(case, ctx: Ctx):
             seen[(r[0], r[1])] = seen.get((r[0], r[1]), 0) + 1
     nt = len(case["inputs"]) >= 2 and any(v >= 2 for v in seen.values()) and any(v == 1 for v in seen.values())
     ctx.record(case, nt, ["merge", f"k={len(case['inputs'])}", "support=" + case["support"], "agg=" + case["agg_count"],
-                          "cols=" + "+".join(cols), f"mergebuf={case['mergebuf']}", "sym" if symmetric else "square",
+                          "cols=" + "+".join(cols), f"mergebuf={case['mergebuf']}", "sym" if symmetric else "square", "via=" + case.get("via", "api"),
                           "all-empty" if not seen else "has-data"])
 
 
